@@ -17,6 +17,20 @@ CHECKS = {
         note="Trusted: TLC, the Go driver's event logging, distinct value identities per cycle. Usage restricted to "
              "the grammar the property states. The verif-tagged accessor VerifView is used for a model-drift note only.",
         ref="DESIGN.md §6 C11"),
+    "C12": dict(
+        technique="TLC exhaustive interleaving check of caller vs chunk-writer processes at hook granularity; "
+                  "TLC-simulated schedules forced on the real code through verif step hooks; un-gated hook traces "
+                  "validated by TLC; race detector on un-hooked runs",
+        text="MorassConc.tla models Push/write/Finalise as processes stepping between the verif hook sites with the "
+             "channels, WaitGroup and m.files as shared state; TLC checks every interleaving for chunk sizes 1..3 and "
+             "0..7 pushes (Finalise completeness, no torn run, race freedom as a state predicate, no deadlock, "
+             "termination under fairness) and refutes the as-found variant. Simulated schedules are executed "
+             "deterministically on a real concurrent Morass by holding goroutines at the hooks (expected arrivals, "
+             "blocked processes and pulled values compared with the model), and un-gated runs are logged at every "
+             "hook and accepted only if MorassConcTrace.tla explains them.",
+        note="Trusted: atomicity of gate-to-gate segments, goroutine identity via runtime.Stack, 1.5 ms grace for "
+             "'blocked' claims, Go race detector on un-hooked runs only.",
+        ref="DESIGN.md §6 C12"),
 }
 
 NOT_YET = {}
